@@ -99,6 +99,8 @@ class Model:
         if name not in self.files:
             raise Unsupported(f"file {name} not declared")
         size, arr = self.files[name]
+        if callable(arr):
+            return size, arr
         return size, (lambda i, arr=arr: z3.Select(arr, i))
 
     def obj_truthy(self, path):
